@@ -70,6 +70,11 @@ func pathProps(body []byte) (out string) {
 		}
 	}()
 	s, err := catalog.UnmarshalJSightSchema("", body, &catalog.UserSchemas{}, nil)
+	if err != nil {
+		// the body may name user types and enum rules the oracle does not have; the NAMES of the properties do not depend
+		// on them: annotations are dropped and type references replaced by a literal before a second try
+		s, err = catalog.UnmarshalJSightSchema("", withoutReferences(body), &catalog.UserSchemas{}, nil)
+	}
 	if err != nil || s.ContentJSight == nil || s.ContentJSight.TokenType != "object" {
 		return "err"
 	}
@@ -84,6 +89,41 @@ func pathProps(body []byte) (out string) {
 		return "err"
 	}
 	return "ok " + strings.Join(keys, ",")
+}
+
+// withoutReferences removes "// ..." annotations and replaces @name values by 1, outside string literals.
+func withoutReferences(b []byte) []byte {
+	out := make([]byte, 0, len(b))
+	inStr := false
+	for i := 0; i < len(b); i++ {
+		c := b[i]
+		switch {
+		case inStr:
+			out = append(out, c)
+			if c == '\\' && i+1 < len(b) {
+				i++
+				out = append(out, b[i])
+			} else if c == '"' {
+				inStr = false
+			}
+		case c == '"':
+			inStr = true
+			out = append(out, c)
+		case c == '/' && i+1 < len(b) && b[i+1] == '/':
+			for i < len(b) && b[i] != '\n' && b[i] != '\r' {
+				i++
+			}
+			i--
+		case c == '@':
+			for i+1 < len(b) && (b[i+1] == '_' || b[i+1] == '-' || b[i+1] >= '0' && b[i+1] <= '9' || b[i+1] >= 'a' && b[i+1] <= 'z' || b[i+1] >= 'A' && b[i+1] <= 'Z') {
+				i++
+			}
+			out = append(out, '1')
+		default:
+			out = append(out, c)
+		}
+	}
+	return out
 }
 
 func init() {
